@@ -12,7 +12,10 @@ CORRESPONDENCE = "table dump"
 
 def gen(tier, rng):
     # the header accessors once more through the RefNal API (model: Model/Nal.v)
-    return ["refnal nal:c:%02x" % b for b in range(256)] + ["refnal nal:i:%02xaa/bb" % b for b in range(0, 256, 7)]
+    from vlib.props import C13
+    # ... and the profile / level conversions through the accessors that use them (SeqParameterSet::profile / level):
+    # every profile byte x flags {00,10,ef,ff} x level bytes 9..13
+    return ["refnal nal:c:%02x" % b for b in range(256)] + ["refnal nal:i:%02xaa/bb" % b for b in range(0, 256, 7)] + C13.header_conjunctions(rng)
 
 
 def nontrivial(r):
@@ -36,6 +39,8 @@ def table_oracle(lines):
         elif k == "ut":
             i = int(p[1])
             ok = (p[2] == "ok" and i < 32 and p[3] == str(i)) or (p[2] == "err" and i >= 32)
+        elif k == "uteq":
+            ok = p[3] == ("1" if p[1] == p[2] else "0")
         elif k == "prof":
             ok = p[2] == p[1] and p[5] == p[1]
         elif k == "lvl":
